@@ -349,6 +349,60 @@ func (sp *spec) build() (func(), func(x *vsched.Exec) (string, error)) {
 			}
 			v, err := run(r, sp.call, Val{"in": "ignored"}, compose.WithCheckPointID("cp"))
 			results, errs = append(results, v), append(errs, err)
+		case "subresume-before", "subresume-rerun":
+			// a stateful sub-graph node s WITH state handlers of the parent on it, interrupted INSIDE (before its inner node
+			// y, or by y asking for its own re-run), then resumed: the parent's handlers on s belong to ONE execution of s;
+			// the parent state at the end holds each of them once (node b reports the parent state)
+			store := &memStore{m: map[string][]byte{}}
+			sub := compose.NewGraph[Val, Val](compose.WithGenLocalState(w.gen("sub/")))
+			sub.AddLambdaNode("x", sp.lambda(w, "sub/", "x", seen), sp.nodeOpts(w, "sub/", "x")...)
+			attempts := 0
+			sub.AddLambdaNode("y", compose.InvokableLambda(func(ctx context.Context, in Val) (Val, error) {
+				attempts++
+				if sp.shape == "subresume-rerun" && attempts == 1 {
+					return nil, compose.InterruptAndRerun
+				}
+				return Val{"y": "sub/y"}, nil
+			}))
+			sub.AddEdge(compose.START, "x")
+			sub.AddEdge("x", "y")
+			sub.AddEdge("y", compose.END)
+			g := compose.NewGraph[Val, Val](compose.WithGenLocalState(w.gen("")))
+			g.AddLambdaNode("a", sp.lambda(w, "", "a", seen), sp.nodeOpts(w, "", "a")...)
+			var subOpts []compose.GraphCompileOption
+			if sp.shape == "subresume-before" {
+				subOpts = append(subOpts, compose.WithInterruptBeforeNodes([]string{"y"}))
+			}
+			g.AddGraphNode("s", sub, append(sp.nodeOpts(w, "", "s"), compose.WithGraphCompileOptions(subOpts...))...)
+			g.AddLambdaNode("b", compose.InvokableLambda(func(ctx context.Context, in Val) (Val, error) {
+				var c int
+				var log []string
+				err := compose.ProcessState(ctx, func(ctx context.Context, s *St) error {
+					c, log = s.einoGuardedSnapshot()
+					return nil
+				})
+				return Val{"b": fmt.Sprintf("counter=%d log=%v", c, log)}, err
+			}))
+			g.AddEdge(compose.START, "a")
+			g.AddEdge("a", "s")
+			g.AddEdge("s", "b")
+			g.AddEdge("b", compose.END)
+			opts := []compose.GraphCompileOption{compose.WithCheckPointStore(store)}
+			if sp.mode == "dag" {
+				opts = append(opts, compose.WithNodeTriggerMode(compose.AllPredecessor))
+			}
+			r, err := g.Compile(context.Background(), opts...)
+			if err != nil {
+				errs = append(errs, err)
+				return
+			}
+			_, err = run(r, sp.call, Val{"in": "x"}, compose.WithCheckPointID("cp"))
+			if _, isInt := compose.ExtractInterruptInfo(err); !isInt {
+				errs = append(errs, fmt.Errorf("expected an interrupt inside the sub-graph node s, got %v", err))
+				return
+			}
+			v, err := run(r, sp.call, Val{"in": "ignored"}, compose.WithCheckPointID("cp"))
+			results, errs = append(results, v), append(errs, err)
 		case "resume":
 			// state is carried unchanged across interrupt/resume, apart from the caller's modification
 			store := &memStore{m: map[string][]byte{}}
@@ -436,6 +490,28 @@ func (sp *spec) build() (func(), func(x *vsched.Exec) (string, error)) {
 			if !dup {
 				all = append(all, l)
 			}
+		}
+		if strings.HasPrefix(sp.shape, "subresume") {
+			// the parent state as node b saw it at the end: every state user of a and s entered exactly once, the
+			// counter is the number of those sections
+			got := gprog.Canon(results[0])
+			var wantLog []string
+			for _, k := range []string{"a", "s"} {
+				if sp.pre {
+					wantLog = append(wantLog, "enter:pre:"+k, "exit:pre:"+k)
+				}
+				if sp.process && k == "a" {
+					wantLog = append(wantLog, "enter:body:"+k, "exit:body:"+k)
+				}
+				if sp.post {
+					wantLog = append(wantLog, "enter:post:"+k, "exit:post:"+k)
+				}
+			}
+			want := fmt.Sprintf("counter=%d log=%v", len(wantLog)/2, wantLog)
+			if !strings.Contains(got, want) {
+				return "", fmt.Errorf("state after resume: the parent state at the end is not the one execution of a and s (each state handler once): node b saw %s, expected %s", got, want)
+			}
+			return got, nil
 		}
 		for _, s := range all {
 			if sp.shape == "wfresume" && len(s.Log) == 0 {
@@ -589,13 +665,13 @@ func (sp *spec) build() (func(), func(x *vsched.Exec) (string, error)) {
 
 func main() {
 	c := harness.Init("C11")
-	c.Res.Rule = "scenario = stateful graph (Pregel / all-predecessor / eager Workflow) with 2-3 parallel nodes x which state users are present (state pre-handlers, post-handlers, ProcessState in node bodies; each a read-yield-write increment with enter/exit markers in the state's log) x shape (fan-out of 2 or 3, fan-out of 2 in which one ProcessState callback panics while it holds the state (the sibling must not hang), fan-out of 2 with STREAM state handlers that return lazily converted streams whose convert function calls ProcessState, stateful nested graph next to a parent node, two concurrent runs of one compiled graph, interrupt-after + resume with a StateModifier, an eager Workflow resumed with two restored tasks and a successor that starts while one of them is still running) x Invoke/Stream; every interleaving of executor goroutines, run loop and callers within the preemption bound, both map orders; distinct/non-trivial = distinct scheduling signatures of scenarios with >= 2 of them"
+	c.Res.Rule = "scenario = stateful graph (Pregel / all-predecessor / eager Workflow) with 2-3 parallel nodes x which state users are present (state pre-handlers, post-handlers, ProcessState in node bodies; each a read-yield-write increment with enter/exit markers in the state's log) x shape (fan-out of 2 or 3, fan-out of 2 in which one ProcessState callback panics while it holds the state (the sibling must not hang), fan-out of 2 with STREAM state handlers that return lazily converted streams whose convert function calls ProcessState, stateful nested graph next to a parent node, two concurrent runs of one compiled graph, interrupt-after + resume with a StateModifier, a stateful sub-graph node carrying the parent's state handlers that is interrupted inside (interrupt-before an inner node / an inner node asking for its re-run) and resumed, an eager Workflow resumed with two restored tasks and a successor that starts while one of them is still running) x Invoke/Stream; every interleaving of executor goroutines, run loop and callers within the preemption bound, both map orders; distinct/non-trivial = distinct scheduling signatures of scenarios with >= 2 of them"
 	c.Res.Assumptions = []string{
 		"sequential consistency at synchronisation granularity; critical-section bodies are atomic apart from their explicit yield",
 		"no happens-before state caching: a missing lock makes the state plain shared memory",
 		harness.RacePassAssumption + "; here the harness's own accesses to the state object inside handlers / ProcessState count as eino-owned (the state is what eino must serialise) and are attributed to the eino function that called the handler",
 	}
-	c.Res.Explanation = "stateless exhaustive exploration of real stateful graph runs; oracle per execution: counter equals the number of increments (no lost update), enter/exit markers never interleave (mutual exclusion), pre-handler before body before post-handler per node, handler return values are what the node and END receive, one state object per run and a distinct one per nested stateful graph and per concurrent run, and after interrupt+resume the state equals the state at the interrupt plus the StateModifier's change. " + harness.RacePassExplanation
+	c.Res.Explanation = "stateless exhaustive exploration of real stateful graph runs; oracle per execution: counter equals the number of increments (no lost update), enter/exit markers never interleave (mutual exclusion), pre-handler before body before post-handler per node, handler return values are what the node and END receive, one state object per run and a distinct one per nested stateful graph and per concurrent run, after interrupt+resume the state equals the state at the interrupt plus the StateModifier's change, and a sub-graph node interrupted inside and resumed leaves each of the parent's state handlers on it in the parent state exactly once. " + harness.RacePassExplanation
 	quick := c.Quick()
 	rp := c.StartRacePass("./checks/c11") // worker 0 only: native -race build of this package, free runs of the scenario bodies
 	bounds := []int{0, 1, 2}
@@ -604,9 +680,9 @@ func main() {
 	}
 	type users struct{ pre, post, process bool }
 	us := []users{{false, false, true}, {true, true, false}, {true, true, true}, {false, true, true}, {true, false, true}}
-	for _, shape := range []string{"fan2", "fan2lazy", "fan2panic", "nested", "tworuns", "resume", "wfresume", "fan3"} {
+	for _, shape := range []string{"fan2", "fan2lazy", "fan2panic", "nested", "tworuns", "resume", "subresume-before", "subresume-rerun", "wfresume", "fan3"} {
 		for _, mode := range []string{"pregel", "dag", "workflow"} {
-			if mode == "workflow" && (shape == "nested" || shape == "resume") {
+			if mode == "workflow" && (shape == "nested" || shape == "resume" || strings.HasPrefix(shape, "subresume")) {
 				continue
 			}
 			if shape == "wfresume" && mode != "workflow" {
@@ -632,7 +708,7 @@ func main() {
 					sp := &spec{mode: mode, shape: shape, pre: u.pre, post: u.post, process: u.process, yield: true, call: call, lazy: shape == "fan2lazy"}
 					sp.name = fmt.Sprintf("%s/%s/pre%v-post%v-process%v/%s", shape, mode, u.pre, u.post, u.process, call)
 					b := bounds
-					if shape == "resume" {
+					if shape == "resume" || strings.HasPrefix(shape, "subresume") {
 						b = []int{0}
 					} else if mode == "workflow" && (shape == "tworuns" || shape == "fan3") {
 						// eager mode starts every node in its own goroutine: 7 threads; one bound less
